@@ -69,6 +69,13 @@ def rules(model, rep):
         pass
     # loop-carried scalars keep a symbolic entry value
     carried = {n.id for x in ast.walk(loop) for n in ast.walk(x) if isinstance(n, ast.Name) and isinstance(n.ctx, ast.Store)}
+    # containers mutated in the loop (x[k] = .., x.append(..)) are loop-carried state as well
+    for x in ast.walk(loop):
+        if isinstance(x, ast.Subscript) and isinstance(x.ctx, (ast.Store, ast.Del)) and isinstance(x.value, ast.Name):
+            carried.add(x.value.id)
+        if isinstance(x, ast.Call) and isinstance(x.func, ast.Attribute) and x.func.attr in sysrules.MUTATORS and isinstance(x.func.value, ast.Name) \
+                and x.func.value.id in env0 and x.func.value.id != "pbar":
+            carried.add(x.func.value.id)
     for nm in carried:
         if nm != BST:
             entry[nm] = Sym(("entry", nm))
